@@ -637,6 +637,7 @@ func (s *sc) rtpRead(m *rstream) {
 	if fail {
 		inj = &obs.InjErr{ID: int(s.clk.Now())}
 		item.Err = inj
+		item.NWithErr = r.Bool() // the failing reader may report n > 0 together with its error
 		s.faults++
 	} else {
 		m.seq, m.ts, s.twccNext = seq, ts, tw
